@@ -31,19 +31,30 @@ try:
         shutil.rmtree(os.path.join(h, 'src'), ignore_errors=True)
         os.makedirs(os.path.join(h, '.cargo'), exist_ok=True)
         shutil.copytree(os.path.join(V, 'harness', 'src'), os.path.join(h, 'src'))
+        # snapshot of the machinery (check, vlib, spec, known findings): later edits in /verif do not reach a run in flight
+        SV = os.path.join(wt, '_v')
+        shutil.rmtree(SV, ignore_errors=True)
+        os.makedirs(SV)
+        for x in ('vlib', 'spec'):
+            shutil.copytree(os.path.join(V, x), os.path.join(SV, x), ignore=shutil.ignore_patterns('__pycache__', 'states', '*.st'))
+        for x in ('check', 'known_findings.json', 'properties.jsonl'):
+            shutil.copy(os.path.join(V, x), os.path.join(SV, x))
+
         toml = open(os.path.join(V, 'harness', 'Cargo.toml')).read().replace('/repo/etherparse', os.path.join(wt, 'etherparse'))
         open(os.path.join(h, 'Cargo.toml'), 'w').write(toml)
         shutil.copy(os.path.join(V, 'harness', 'Cargo.lock'), os.path.join(h, 'Cargo.lock'))
         shutil.copy(os.path.join(V, 'harness', '.cargo', 'config.toml'), os.path.join(h, '.cargo', 'config.toml'))
         b = subprocess.run(['cargo', 'build', '--offline', '--quiet'], cwd=h, capture_output=True, text=True)
+        if 'C01' in checks and b.returncode == 0:
+            b = subprocess.run(['cargo', 'build', '--offline', '--quiet', '--release'], cwd=h, capture_output=True, text=True)
         if b.returncode != 0:
             print('harness build failed with the patch:\n' + b.stderr[-1500:]); results = {'build': 'failed'}
         else:
-            env = dict(os.environ, VERIF_DEV_BIN=os.path.join(h, 'target', 'debug', 'drive'), VERIF_DEV_WORK=os.path.join(wt, '_work'), VERIF_DEV_EVID=os.path.join(wt, '_evid'),
+            env = dict(os.environ, VERIF_DEV_BIN=os.path.join(h, 'target', 'debug', 'drive'), VERIF_DEV_BIN_RELEASE=os.path.join(h, 'target', 'release', 'drive') if 'C01' in checks else '', VERIF_DEV_WORK=os.path.join(wt, '_work'), VERIF_DEV_EVID=os.path.join(wt, '_evid'),
                        VERIF_DEV_REPO=wt)
             for c in checks:
                 t0 = time.time()
-                p = subprocess.run([os.path.join(V, 'check'), c, '--tier', 'quick'], cwd=V, capture_output=True, text=True, env=env)
+                p = subprocess.run([os.path.join(SV, 'check'), c, '--tier', 'quick'], cwd=SV, capture_output=True, text=True, env=env)
                 viol = [l for l in p.stdout.splitlines() if l.startswith('VIOLATION') or l.startswith('  ')]
                 results[c] = {'exit': p.returncode, 'violations': viol[:8], 'wall_s': round(time.time() - t0, 1)}
                 print(c, 'exit', p.returncode, '|', ' ; '.join(viol[:4])[:400])
